@@ -23,6 +23,24 @@ deriving Repr
 
 abbrev Dir := List (Bytes × Node)
 
+mutual
+/-- structural equality of nodes as a `Bool` (`Lemmas/NodeEq.lean`: `beq = true ↔ =`) -/
+def Node.beq : Node → Node → Bool
+  | .file a, .file b => a == b
+  | .dir a, .dir b => Node.beqList a b
+  | .link a, .link b => a == b
+  | _, _ => false
+def Node.beqList : List (Bytes × Node) → List (Bytes × Node) → Bool
+  | [], [] => true
+  | (k, x) :: r, (k', x') :: r' => k == k' && Node.beq x x' && Node.beqList r r'
+  | _, _ => false
+end
+
+def Dir.optBeq : Option Dir → Option Dir → Bool
+  | none, none => true
+  | some a, some b => Node.beqList a b
+  | _, _ => false
+
 def Dir.get (d : Dir) (n : Bytes) : Option Node := List.lookup n d
 def Dir.erase (d : Dir) (n : Bytes) : Dir := d.filter (fun kv => kv.1 != n)
 def Dir.set (d : Dir) (n : Bytes) (x : Node) : Dir := (n, x) :: d.erase n
